@@ -158,10 +158,10 @@ def from_table(path, typ, width, names, what):
             if mm:
                 hi = top if mm.group(2) in ("u8::MAX", "u16::MAX") else num(mm.group(2), what)
                 ranges.append((num(mm.group(1), what), hi))
-            elif re.fullmatch(r"0x[0-9a-fA-F_]+|[0-9_]+", alt):
+            elif re.fullmatch(r"0x[0-9a-fA-F_]+|[0-9][0-9_]*", alt):
                 ranges.append((num(alt, what), num(alt, what)))
             elif re.fullmatch(r"[a-z_]\w*", alt) and len(p.split("|")) == 1:
-                binder = alt
+                binder = None if alt == "_" else alt      # catch-all arm, with or without a binder
                 ranges.append((0, top))
             else:
                 die("pattern not recognised in %s: %r" % (what, p))
